@@ -91,7 +91,7 @@ def rewrite(path, content):
 
 
 def biased_model(rnd):
-    feats = rnd.sample(["classes", "multi", "tools", "pdeps", "if", "expr", "weak", "menv", "fwd", "names", "roots2"], rnd.randrange(3, 9)) + ["if", "roots2"]
+    feats = rnd.sample(["classes", "multi", "tools", "pdeps", "if", "expr", "weak", "menv", "fwd", "names", "roots2"], rnd.randrange(3, 9)) + ["if", "roots2", "includes"]
     m = projgen.gen_model(rnd, rnd.randrange(5, 10), feats)
     # dangerous shape: one shared recipe reached >= 3 times with environments that differ in one key which it reads lazily
     names = list(m["recipes"])
@@ -141,7 +141,9 @@ def run_case(case):
         for step in range(case["edits"] + 1):
             if step:
                 k = rnd.random()
-                if k < 0.55:
+                if k < 0.15:
+                    ed = edits.apply_edit(model, rnd, ["inc_mod", "inc_mod", "class_tok", "tok"])
+                elif k < 0.55:
                     ed = edits.apply_edit(model, rnd)
                 elif k < 0.70:
                     # optional include file appearing / disappearing / changing
